@@ -189,6 +189,18 @@ CATALOGUE = [
     ('C20-b', 'C20', 'circus/stream/file_stream.py',
      "            dfn = self._filename + \".1\"\n            if os.path.exists(dfn):\n                os.remove(dfn)\n            os.rename(self._filename, dfn)",
      "            dfn = self._filename + \".1\"\n            if not os.path.exists(dfn):\n                os.rename(self._filename, dfn)\n            else:\n                os.remove(self._filename)"),
+    # (disk fault) the reopening after a failed rollover is dropped
+    ('C20-c', 'C20', 'circus/stream/file_stream.py',
+     "        if self._file is None:                 # delay was set...\n            self._file = self._open()\n        if self._max_bytes > 0:",
+     "        if self._max_bytes > 0:"),
+    # (late caller) the synchronous client keeps only the last frame
+    ('C06-f', 'C06', 'circus/client.py',
+     "        self.socket.setsockopt(zmq.LINGER, 0)\n        get_connection(self.socket, endpoint, ssh_server, ssh_keyfile)\n        self._init_poller()",
+     "        self.socket.setsockopt(zmq.LINGER, 0)\n        self.socket.setsockopt(zmq.CONFLATE, 1)\n        get_connection(self.socket, endpoint, ssh_server, ssh_keyfile)\n        self._init_poller()"),
+    # (httpd = True) the built-in socket counts as deleted from the file
+    ('C07-c', 'C07', A,
+     "        current_sn = set([i.name for i in self.sockets.values()]) - ignore_sn\n",
+     "        current_sn = set([i.name for i in self.sockets.values()])\n"),
 ]
 
 
